@@ -64,6 +64,27 @@ func (fr *Frame) lookupLocal(name string, at *ssa.BasicBlock, atInstr ssa.Instru
 		}
 		return Val{t: t, typ: o.Type()}, true
 	}
+	// a variable that lives in a cell (captured by a closure, or its address taken): its value is what the cell holds
+	var cell *ssa.Alloc
+	for b := at; b != nil; b = b.Idom() {
+		for _, in := range b.Instrs {
+			if b == at && atInstr != nil && in == atInstr {
+				break
+			}
+			if a, ok := in.(*ssa.Alloc); ok && a.Comment == name {
+				if _, done := fr.vals[a]; done {
+					cell = a
+				}
+			}
+		}
+		if cell != nil {
+			break
+		}
+	}
+	if cell != nil {
+		lv := fr.lvOf(cell)
+		return Val{t: ex.load(cur, lv), typ: lv.typ}, true
+	}
 	for b := at; b != nil; b = b.Idom() {
 		instrs := b.Instrs
 		if b == at {
@@ -132,8 +153,16 @@ func (fr *Frame) ghostAt(kind string, ord int, name, when string, reach T, st *S
 		}
 		env := fr.specEnv(st, fr.entry, fr.curBlock, nil)
 		env.atInstr = fr.curInstr
+		// only positional names are bound at an anchor (arg0.., result.., self, sent, ch): the callee's own parameter
+		// names would shadow the locals of the function under contract
 		for k, v := range bind {
-			env.vars[k] = v
+			if strings.HasPrefix(k, "arg") || strings.HasPrefix(k, "result") || k == "self" || k == "sent" || k == "ch" {
+				env.vars[k] = v
+			} else if _, isLocal := fr.lookupLocal(k, fr.curBlock, fr.curInstr, nil, st); !isLocal {
+				if _, isParam := fr.params[k]; !isParam {
+					env.vars[k] = v
+				}
+			}
 		}
 		switch g.Kind {
 		case "assert":
